@@ -170,6 +170,25 @@ def fset(cfg):
     return "{" + ", ".join('"%s"' % f for f in feats) + "}"
 
 
+_dict_path = None
+
+
+def dictionary():
+    """The dictionary of the source under test (bin/harvest.py), harvested once per process from
+    the CURRENT working tree of the repository; TLC reads it through the CTV_DICT variable."""
+    global _dict_path
+    if _dict_path is None:
+        sys.path.insert(0, os.path.join(VERIF, "bin"))
+        import harvest
+        os.makedirs(os.path.join(WORK, "tlc"), exist_ok=True)
+        d = harvest.harvest(REPO)
+        path = os.path.join(WORK, "tlc", "dict.json")
+        json.dump(d, open(path, "w"))
+        log("dictionary of %s/src: %d texts, %d integers" % (REPO, len(d["texts"]), len(d["ints"])))
+        _dict_path = path
+    return _dict_path
+
+
 TLC_STATS = re.compile(r"(\d+) states generated, (\d+) distinct states found")
 SIM_STATS = re.compile(r"([\d,]+) states checked")
 
@@ -183,6 +202,7 @@ def tlc(module, cfgtext, run, workers=8, timeout=1800, env_extra=None, xss="1g",
     shutil.rmtree(meta, ignore_errors=True)
     env = dict(os.environ)
     env.pop("JAVA_TOOL_OPTIONS", None)
+    env["CTV_DICT"] = dictionary()
     if env_extra:
         env.update(env_extra)
     # java is invoked directly (not through the `tlc` wrapper) so that -Xss also sizes the MAIN
@@ -242,6 +262,7 @@ def tlc_collect(module, cfgtext, run, prefix, workers=8, timeout=1800):
     shutil.rmtree(meta, ignore_errors=True)
     env = dict(os.environ)
     env.pop("JAVA_TOOL_OPTIONS", None)
+    env["CTV_DICT"] = dictionary()
     cmd = ["timeout", str(timeout), "java", "-Xss1g", "-Xmx12g", "-XX:+UseParallelGC", "-DTLA-Library=" + SPEC,
            "-cp", TLA_CP, "tlc2.TLC", "-workers", str(workers), "-metadir", meta, "-cleanup",
            "-noGenerateSpecTE", "-config", cfgpath, os.path.join(SPEC, module + ".tla")]
